@@ -137,6 +137,7 @@ class FnTables:
     def __init__(self, fn_name: str, fn: ast.FunctionDef, helpers: dict[str, ast.FunctionDef] | None = None):
         self.fn_name = fn_name
         self.helpers = helpers or {}
+        self._stack: list[str] = [fn.name]        # helpers being inlined (cycle guard)
         self.calls: list[tuple[str, str, list[str], bool]] = []       # fn, callee, catches, inHandler
         self.phases: list[dict] = []
         self._walk(fn.body, [], False, [], ("none", False), 0)
@@ -144,7 +145,8 @@ class FnTables:
     # -- inlining of private helpers
     def _helper(self, call: ast.AST) -> ast.FunctionDef | None:
         if isinstance(call, ast.Call) and isinstance(call.func, ast.Attribute) and isinstance(call.func.value, ast.Name) \
-                and call.func.value.id == "self" and call.func.attr.startswith("_") and not call.func.attr.startswith("__"):
+                and call.func.value.id == "self" and call.func.attr.startswith("_") and not call.func.attr.startswith("__") \
+                and call.func.attr not in self._stack:
             return self.helpers.get(call.func.attr)
         return None
 
@@ -175,7 +177,13 @@ class FnTables:
             def visit_Call(self, node):
                 node = self.generic_visit(node)
                 r = tables._expr_helper(node)
-                return tables._subst(r, depth + 1) if r is not None else node
+                if r is None:
+                    return node
+                tables._stack.append(node.func.attr)
+                try:
+                    return tables._subst(r, depth + 1)
+                finally:
+                    tables._stack.pop()
         import copy
         return T().visit(copy.deepcopy(e))
 
@@ -206,7 +214,11 @@ class FnTables:
             if inl is not None:
                 for arg in list(st.value.args) + [k.value for k in st.value.keywords]:      # arguments are evaluated first
                     self._record(arg, catches, in_handler, conds, hk, depth)
-                self._walk(inl, catches, in_handler, conds, hk, depth + 1)
+                self._stack.append(st.value.func.attr)
+                try:
+                    self._walk(inl, catches, in_handler, conds, hk, depth + 1)
+                finally:
+                    self._stack.pop()
             elif isinstance(st, ast.Try):
                 types: list[str] = []
                 kinds: list[tuple[str, bool]] = []
@@ -279,9 +291,10 @@ def _tables(root: Path) -> dict:
     interp = ast.parse((root / "lang/exec/pinterpreter.py").read_text())
     events = ast.parse((root / "lang/exec/events.py").read_text())
     methods = class_methods(eng, "Engine")
-    # (private helpers are inlined into the tick and the process-image functions; `_apply_safe_state` is a table of its own)
+    # (private helpers are inlined into the tick, the process-image functions and set_error_state, and attributed to
+    #  them; `_apply_safe_state` is a table of its own)
     helpers = {k: v for k, v in methods.items() if k != "_apply_safe_state"}
-    fns = {name: FnTables(name, methods[py], helpers if name in ("tick", "read", "write") else None) for name, py in [
+    fns = {name: FnTables(name, methods[py], helpers if name != "apply_safe_state" else None) for name, py in [
         ("tick", "tick"), ("read", "read_process_image"), ("write", "write_process_image"),
         ("set_error_state", "set_error_state"), ("apply_safe_state", "_apply_safe_state")]}
     # flatten: the calls `self.read_process_image()` / `self.write_process_image()` of the tick are replaced by the
@@ -296,6 +309,39 @@ def _tables(root: Path) -> dict:
             phases.append(ph)
     all_calls = [c for f in fns.values() for c in f.calls]
     set_error_calls = [c[1] for c in fns["set_error_state"].calls if not is_structural(c[1])]
+
+    # Is the error recorded (the attribute `has_error_state()` tests) before the first call of set_error_state that may
+    # raise?  (Decides what a fault at that first call leaves behind; the order of the two is otherwise immaterial.)
+    err_attr = None
+    hes = methods.get("has_error_state")
+    if hes is not None:
+        for n in ast.walk(hes):
+            if isinstance(n, ast.Compare) and isinstance(n.left, ast.Attribute) and dotted(n.left).startswith("self."):
+                err_attr = n.left.attr
+    records_first = False
+
+    def flat(stmts: list[ast.stmt], depth: int):
+        for st in stmts:
+            inl = None
+            if depth < INLINE_DEPTH and isinstance(st, ast.Expr) and isinstance(st.value, ast.Call) \
+                    and dotted(st.value.func).startswith("self._") and dotted(st.value.func)[5:] in helpers:
+                h = helpers[dotted(st.value.func)[5:]]
+                if not any(isinstance(n, (ast.Return, ast.Yield, ast.YieldFrom)) for n in ast.walk(h)):
+                    inl = body_without_docstring(h)
+            if inl is not None:
+                yield from flat(inl, depth + 1)
+            elif isinstance(st, ast.If):
+                yield st.test
+                yield from flat(st.body, depth)
+                yield from flat(st.orelse, depth)
+            else:
+                yield st
+    for st in flat(methods["set_error_state"].body, 0):
+        if isinstance(st, ast.Assign) and any(isinstance(t, ast.Attribute) and dotted(t) == f"self.{err_attr}" for t in st.targets):
+            records_first = True
+            break
+        if any(not is_structural(dotted(c.func)) for c in calls_in_order(st)):
+            break
 
     emit = find_method(events, "EventEmitter", "emit_on_method_error")
     swallows = False
@@ -332,7 +378,7 @@ def _tables(root: Path) -> dict:
                     if marks and stores:
                         wrapper_ok, error_attr = True, stores[0]
     return {"calls": all_calls, "phases": phases, "set_error_calls": set_error_calls, "swallows": swallows,
-            "wrapper_ok": wrapper_ok, "interp_error_attr": error_attr}
+            "wrapper_ok": wrapper_ok, "interp_error_attr": error_attr, "records_first": records_first}
 
 
 def generate() -> Path:
@@ -363,6 +409,8 @@ def generate() -> Path:
         for p in t["phases"]))
     lines.append("]\n")
     lines.append("def setErrorCalls : List String := [" + ", ".join(lean_str(c) for c in t["set_error_calls"]) + "]\n")
+    lines.append("/-- `_last_error` is assigned before the first call of set_error_state that may raise -/")
+    lines.append(f"def errorRecordedFirst : Bool := {'true' if t['records_first'] else 'false'}\n")
     lines.append(f"def emitSwallows : Bool := {'true' if t['swallows'] else 'false'}\n")
     lines.append(f"def visitWrapperMarksFailed : Bool := {'true' if t['wrapper_ok'] else 'false'}\n")
     lines.append("end OPM.Gen.TickTable\n")
